@@ -184,6 +184,8 @@ func runNode(s *Script, path string, n *Node) {
 			_ = k.Wait()
 		}
 	}
+	// the process reached the end of its script by itself (it was not stopped from outside): leave a trace of it
+	_ = os.WriteFile(filepath.Join(s.Dir, fmt.Sprintf("%s-%d.end", path, os.Getpid())), nil, 0o600)
 	if n.Signal != 0 {
 		signal.Reset(syscall.Signal(n.Signal))
 		_ = syscall.Kill(os.Getpid(), syscall.Signal(n.Signal))
@@ -235,6 +237,13 @@ func WaitRegistered(dir string, n int, timeout time.Duration) []Member {
 		}
 		time.Sleep(2 * time.Millisecond)
 	}
+}
+
+// EndedByItself reports whether the process of the given node and pid reached the end of its script (as opposed to
+// having been stopped from outside).
+func EndedByItself(dir, node string, pid int) bool {
+	_, err := os.Stat(filepath.Join(dir, fmt.Sprintf("%s-%d.end", node, pid)))
+	return err == nil
 }
 
 // Proc is a live (or zombie) process found in /proc.
